@@ -20,13 +20,24 @@ Section Constraints.
   (** tolerance: [Inf] is f64::INFINITY *)
   Inductive Tol := Inf | Fin (t : T).
 
-  (** one joint of [compute_centers] (constraints.rs:113-136); [None] = out of fuel *)
-  Definition center_tol (a b : T) : option (T * Tol) :=
+  (** the mathematical reading: centre and half width of the arc *)
+  Definition center_tol_spec (a b : T) : option (T * Tol) :=
     if a =? b then Some (n0, Inf)
     else if a <? b then Some ((a + b) / n2, Fin ((b - a) / n2))
     else match advance (adv_fuel a b) a b with
          | None => None
          | Some b' => Some ((a + b') / n2, Fin ((b' - a) / n2))
+         end.
+
+  (** one joint of [compute_centers] (constraints.rs); [None] = out of fuel.  The half width is taken as the larger of the
+      distances from the (rounded) centre to the two limits, so that both limits are inside the range whatever the rounding *)
+  Definition half_width (a b c : T) : T := let l := c - a in let r := b - c in if l <? r then r else l.
+  Definition center_tol (a b : T) : option (T * Tol) :=
+    if a =? b then Some (n0, Inf)
+    else if a <? b then let c := (a + b) / n2 in Some (c, Fin (half_width a b c))
+    else match advance (adv_fuel a b) a b with
+         | None => None
+         | Some b' => let c := (a + b') / n2 in Some (c, Fin (half_width a b' c))
          end.
 
   (** [inside_bounds] (constraints.rs:148-158).  An infinite tolerance means
